@@ -65,3 +65,19 @@ Definition bi_init (a b : list (bytes * bytes)) : bstate :=
 
 Definition bi_dry (tbl : list (bytes * bytes)) (host : bytes) (s : bstate) : list (bytes * action) :=
   snd (bisync_dry (lookup_digest tbl) path_le s).
+
+(** ** step lists and crash states (Model/BisyncSteps.v) for the C08 correspondence run *)
+From Copia Require Import Model.BisyncSteps.
+
+Definition bfstep := @fstep bytes _ _ bytes.
+
+Definition bi_steps (tbl : list (bytes * bytes)) (host : bytes) (s : bstate) (archive_file_exists : bool) : list bfstep :=
+  bisync_steps (lookup_digest tbl) dge_bytes (bi_cname host) path_le s archive_file_exists.
+
+Definition bi_crash (tbl : list (bytes * bytes)) (host : bytes) (s : bstate) (archive_file_exists : bool) (k : nat)
+  : list (bytes * bytes) * list (bytes * bytes) * list (bytes * bytes) * list (bytes * bytes) * option (list (bytes * bytes)) :=
+  let f := crash (lookup_digest tbl) dge_bytes (bi_cname host) path_le s archive_file_exists k in
+  (map_to_list (fA f), map_to_list (fB f), map_to_list (gA f), map_to_list (gB f), map_to_list <$> farch f).
+
+Definition bi_state (a b : list (bytes * bytes)) (z : option (list (bytes * bytes))) : bstate :=
+  {| tA := list_to_map a; tB := list_to_map b; arch := list_to_map <$> z |}.
